@@ -196,6 +196,8 @@ func runMode(dir, mode, home string, c Case, src string) result {
 
 var tagRE = regexp.MustCompile(`^T\d+:`)
 
+var tryRE = regexp.MustCompile(`\btry\s*\{`)
+
 func tagged(out string) []string {
 	var ls []string
 	for _, l := range strings.Split(out, "\n") {
@@ -381,6 +383,13 @@ func oracle(c Case) vkit.Outcome {
 			}
 			var sig string
 			switch {
+			case m == "debug" && tryRE.MatchString(src):
+				// Under the debugger every try body is abandoned (finding
+				// C12-1), which changes whatever the program computes from
+				// then on: the first visible difference can be anywhere, so
+				// it says nothing about the cause. One signature for the
+				// whole region; programs without try keep the detailed ones.
+				sig = "mode=debug: tagged lines differ in a program that uses try/catch"
 			case w != "" && g != "" && tagOf(w) == tagOf(g):
 				sig = fmt.Sprintf("mode=%s: same statement prints a different text, role=%s", m, role(w))
 			case g != "" && role(g) == "catch":
